@@ -426,8 +426,30 @@ impl WalWriter {
             ))
         })?;
 
-        // Rename to timestamped file
-        let timestamp = current_timestamp();
+        // Rename to timestamped file. Two rotations within one second must not end up
+        // under the same name (the rename would silently replace the earlier file), and
+        // replay order follows the names: number the file after the newest rotated
+        // file that exists.
+        let newest_rotated = self
+            .path
+            .parent()
+            .and_then(|dir| std::fs::read_dir(dir).ok())
+            .into_iter()
+            .flatten()
+            .flatten()
+            .filter_map(|entry| {
+                let name = entry.file_name();
+                let name = name.to_str()?;
+                name.strip_prefix("wal.")?
+                    .strip_suffix(&format!(".{WAL_EXTENSION}"))?
+                    .parse::<u64>()
+                    .ok()
+            })
+            .max();
+        let timestamp = match newest_rotated {
+            Some(newest) => current_timestamp().max(newest + 1),
+            None => current_timestamp(),
+        };
         let rotated_path = self
             .path
             .with_file_name(format!("wal.{timestamp}.{WAL_EXTENSION}"));
